@@ -44,6 +44,26 @@ def repository (policy : Policy) (rrdpEnabled rsyncEnabled hasNotify : Bool) (ou
     | .updated => .rrdp
   else viaRsync
 
+/-- The configuration in effect for the run that classifies (all of it that could conceivably
+matter: `refresh` and `rrdp-fallback-time`, from which `FallbackTime` is built). -/
+structure RunConfig where
+  refresh : Nat
+  fallbackTime : Nat
+deriving Repr, DecidableEq
+
+/-- `RepositoryUpdate::try_update`, from what it reads: whether the update succeeded, the
+best-before time **stored** in the local copy's state (`none` = no local copy; the time was picked
+by whichever configuration was in effect when the copy was last updated) and the clock now
+(seconds). `RepositoryState::is_expired` is `Utc::now() > best_before`: the copy is current up to
+and including its best-before second. The running configuration is an argument because the code
+has access to it — and the function does not use it. -/
+def tryUpdateOutcome (_cfg : RunConfig) (updateOk : Bool) (storedBestBefore : Option Nat)
+    (now : Nat) : Outcome :=
+  if updateOk then .updated
+  else match storedBestBefore with
+    | none => .unavailable
+    | some bb => if now ≤ bb then .current else .stale
+
 /-- Whether an RRDP update is attempted at all. -/
 def asksRrdp (rrdpEnabled hasNotify : Bool) : Bool := hasNotify && rrdpEnabled
 
